@@ -90,7 +90,9 @@ fn add_correction(ts: Timestamp, correction: TimeInterval) -> Timestamp {
         .wrapping_add(intermediate_nanos.div_euclid(1_000_000_000).into());
     let corrected_nanos = intermediate_nanos.rem_euclid(1_000_000_000);
 
-    Timestamp::new(corrected_seconds, corrected_nanos)
+    // The correction is remote data and can move the seconds outside of the 48 bits
+    // a timestamp can hold; let them wrap like the rest of the calculation.
+    Timestamp::new(corrected_seconds & ((1 << 48) - 1), corrected_nanos)
         .expect("Calculated nanoseconds should be between 0 and 1_000_000_000")
 }
 
